@@ -501,7 +501,15 @@ def lim2(run, only_files=None, rule="LIM2"):
     for f in prog.real_fns():
         if only_files is not None and not any(f.file.startswith(x) for x in only_files):
             continue
-        for bi, si, st in f.stmts():
+        sites = [(bi, st) for bi, si, st in f.stmts()]
+        # `&a * b`, `a + &b` on primitive integers are calls of the operator traits (same overflow panic as the MIR binop)
+        for bi, t in f.calls():
+            m_ = re.match(r"^std::ops::(Add|Sub|Mul|Shl)::\w+$", t.get("callee") or "")
+            tys_ = t.get("arg_tys") or []
+            if m_ and len(tys_) == 2 and all(re.fullmatch(r"&?(usize|u8|u16|u32|u64|u128|isize|i8|i16|i32|i64|i128)", x) for x in tys_):
+                sites.append((bi, {"k": "assign", "span": t["span"], "place": t["dest"],
+                                   "rv": {"k": "binop", "op": m_.group(1), "l": t["args"][0], "r": t["args"][1], "lty": tys_[0].lstrip("&")}}))
+        for bi, st in sites:
             if st["k"] != "assign" or st["rv"]["k"] != "binop" or st["span"].get("mac"):
                 continue
             rv = st["rv"]
